@@ -179,25 +179,31 @@ def cell_model(Xd, N_total, nbins, nints, nbands, tsamp32, period32, accel32, ct
 
 
 def compare_cube(cube, counts, sums, cnts, mk, ctx):
+    """The cube decides: every non-empty cell must be the mean of the samples the model assigns to it.
+    The kernel's hit-count array is observed through the spy and used for diagnosis (a mismatch there
+    with a correct cube is another internal representation, not a violation)."""
     cube = np.asarray(cube)
     if cube.shape != sums.shape:
         raise mk("cube-shape", f"{cube.shape} != {sums.shape}")
-    if counts is not None:
+    counts_note = ""
+    if counts is not None and np.asarray(counts).size == cnts.size:
         ctx.probe("counts-observed")
         got_c = np.asarray(counts).reshape(cnts.shape)
-        if got_c.sum() != cnts.sum():
-            raise mk("hit-count-total", f"hit counts sum to {int(got_c.sum())}, {int(cnts.sum())} samples were folded")
         if not np.array_equal(got_c, cnts):
-            idx = tuple(np.argwhere(got_c != cnts)[0])
-            raise mk("hit-count-per-cell", f"cell (subint, band, bin)={idx}: {int(got_c[idx])} hits, model {int(cnts[idx])}")
+            idx = tuple(int(x) for x in np.argwhere(got_c != cnts)[0])
+            counts_note = (f"; kernel hit counts also differ from the model (sum {int(got_c.sum())} vs {int(cnts.sum())}, "
+                           f"cell {idx}: {int(got_c[idx])} vs {int(cnts[idx])})")
+            ctx.observations["kernel-hit-counts-differ-from-model"] += 1
+    elif counts is not None:
+        ctx.observations["kernel-count-array-has-another-shape"] += 1
     nz = cnts > 0
     want = np.zeros_like(sums)
     want[nz] = sums[nz] / cnts[nz]
     got = cube.astype(np.float64)
     bad = nz & ~(np.abs(got - want) <= 1e-6 * np.maximum(1.0, np.abs(want)))
     if bad.any():
-        idx = tuple(np.argwhere(bad)[0])
-        raise mk("cell-not-mean-of-its-samples", f"{int(bad.sum())} of {int(nz.sum())} cells differ, first (subint, band, bin)={idx}: got {got[idx]!r} want {want[idx]!r}")
+        idx = tuple(int(x) for x in np.argwhere(bad)[0])
+        raise mk("cell-not-mean-of-its-samples", f"{int(bad.sum())} of {int(nz.sum())} cells differ, first (subint, band, bin)={idx}: got {got[idx]!r} want {want[idx]!r}{counts_note}")
     ctx.probe("compared-cube")
 
 
